@@ -2,6 +2,7 @@ mod ast;
 mod c01;
 mod c03;
 mod c06;
+mod c07;
 mod c13;
 mod c14;
 mod c18;
@@ -50,6 +51,7 @@ fn main() {
         "C02" => c01::run_c02(tier, filter, depth),
         "C03" => c03::run_check(tier, replay.as_ref()),
         "C06" => c06::run(tier, filter),
+        "C07" => c07::run(tier, filter),
         "C13" => c13::run(tier, replay.as_ref()),
         "C14" => c14::run(tier, replay.as_ref()),
         "C18" => c18::run(tier, replay.as_ref()),
